@@ -62,7 +62,10 @@ func (c *Client) Produce(args ProduceArgs) (enc.Name, error) {
 	}
 
 	// TODO: sign the data
-	basename := append(args.Name, enc.NewVersionComponent(version))
+	// copy args.Name instead of appending to it: when the caller's slice has spare capacity,
+	// the metadata name built below would otherwise overwrite the version component of basename
+	basename := make(enc.Name, 0, len(args.Name)+1)
+	basename = append(append(basename, args.Name...), enc.NewVersionComponent(version))
 	signer := sec.NewSha256Signer()
 
 	// use a transaction to ensure the entire object is written
@@ -107,7 +110,8 @@ func (c *Client) Produce(args ProduceArgs) (enc.Name, error) {
 	}
 
 	{ // write metadata packet
-		name := append(args.Name,
+		name := make(enc.Name, 0, len(args.Name)+3)
+		name = append(append(name, args.Name...),
 			enc.NewStringComponent(enc.TypeKeywordNameComponent, "metadata"),
 			enc.NewVersionComponent(version),
 			enc.NewSegmentComponent(0),
